@@ -1,17 +1,18 @@
 ---- MODULE MemoryMap_MC ----
 (* Leg A for C02 / C03 / C18: every history of calls (bounded number of placed items) over a    *)
-(* small universe: a root map (aw = 3, alignment 0 or 1), a ratio-1 window candidate and a      *)
-(* half-width map that can become a dense (ratio 2) or sparse window; explicit and implicit      *)
+(* small universe: a root map (aw = 3, alignment 0 or 1), a same-width map (aw = 2) and a       *)
+(* half-width map (aw = 1) that can become a dense (ratio 2) or sparse window of either, so that  *)
+(* trees two windows deep with anonymous absorption occur; explicit and implicit                   *)
 (* addresses, per-call alignments, sizes 0-3, invalid arguments, name collisions, align_to,      *)
 (* freeze.  Where the specification allows either outcome, both successors are explored.         *)
 EXTENDS MemoryMap, TLC, Json
-CONSTANTS MaxItems, Export, RootAls
+CONSTANTS MaxItems, Export, RootAls, Rich    \* Rich: full numeric product on the root; lean: deeper trees
 VARIABLES key, st, lastin
 vars == <<key, st, lastin>>
 
 Prelude(al) == << [call |-> "new", aw |-> 3, dw |-> 16, al |-> al],
-                  [call |-> "new", aw |-> 1, dw |-> 16, al |-> 0],
-                  [call |-> "new", aw |-> 2, dw |-> 8,  al |-> 1] >>
+                  [call |-> "new", aw |-> 2, dw |-> 16, al |-> 0],
+                  [call |-> "new", aw |-> 1, dw |-> 8,  al |-> 1] >>
 RECURSIVE Run(_, _)
 Run(s, cs) == IF cs = <<>> THEN s ELSE Run(MmStep(<<>>, s, Head(cs)), Tail(cs))
 S0(al) == Run(MmInit(<<>>), Prelude(al))
@@ -24,21 +25,30 @@ AddWin(m, w, n, a, sp, bad) ==
   Blank @@ [call |-> "add_window", m |-> m, w |-> w, name |-> n, addr |-> a, sparse |-> sp, bad |-> bad]
 Names == {<<"s:a">>, <<"s:b">>, <<"s:a", "s:b">>, <<"i:0">>, <<"s:0">>, <<"s:w">>, <<"s:w", "s:a">>}
 Calls ==
-  \* layout calls: conflict-free names, the full numeric product
-  {AddRes(1, r, <<"s:r", "i:0">> \o <<"s:x">>, sz, a, al, "none") : r \in {1}, sz \in 0..3, a \in -1..7, al \in -1..2} \cup
-  {AddRes(1, 2, <<"s:q">>, sz, a, al, "none") : sz \in {1, 2}, a \in {-1, 0, 3, 4, 6}, al \in {-1, 1}} \cup
+  \* layout calls: conflict-free names; the full numeric product when Rich
+  (IF Rich THEN {AddRes(1, 1, <<"s:r", "i:0", "s:x">>, sz, a, al, "none") : sz \in 0..3, a \in -1..7, al \in -1..2} \cup
+                {AddRes(1, 2, <<"s:q">>, sz, a, al, "none") : sz \in {1, 2}, a \in {-1, 0, 3, 4, 6}, al \in {-1, 1}}
+           ELSE {AddRes(1, 1, <<"s:r", "i:0", "s:x">>, sz, a, -1, "none") : sz \in {1, 3}, a \in {-1, 5}}) \cup
   \* name calls
   {AddRes(1, r, n, 1, -1, -1, "none") : r \in {3, 4}, n \in Names} \cup
-  {AddRes(m, 5, n, 1, -1, -1, "none") : m \in {2, 3}, n \in {<<"s:a">>, <<"s:w", "s:a">>, <<"s:c">>}} \cup
+  {AddRes(2, r, n, 1, -1, -1, "none") : r \in {5, 6}, n \in {<<"s:a">>, <<"s:w", "s:a">>, <<"s:c">>}} \cup
+  {AddRes(3, r, n, 1, -1, -1, "none") : r \in {7, 8}, n \in {<<"s:a">>, <<"s:b">>, <<"s:c">>}} \cup
   \* invalid arguments
-  {AddRes(1, 6, <<"s:z">>, 1, -1, -1, b) : b \in {"size_neg", "size_str", "addr_neg", "al_neg", "name_empty", "not_component"}} \cup
-  \* windows
-  {AddWin(1, w, n, a, sp, "none") : w \in {2, 3}, n \in {<<>>, <<"s:w">>, <<"s:a">>}, a \in {-1, 0, 2, 3, 4, 6},
+  {AddRes(1, 9, <<"s:z">>, 1, -1, -1, b) : b \in IF Rich THEN {"size_neg", "size_str", "addr_neg", "al_neg", "name_empty", "not_component"}
+                                                        ELSE {"size_neg", "name_empty"}} \cup
+  \* windows: into the root, and map 3 into map 2 (trees two windows deep)
+  {AddWin(1, w, n, a, sp, "none") : w \in {2, 3}, n \in {<<>>, <<"s:w">>, <<"s:a">>},
+                                   a \in IF Rich THEN {-1, 0, 2, 3, 4, 6} ELSE {-1, 4},
                                    sp \in {"none", "true", "false"}} \cup
+  {AddWin(2, 3, n, a, sp, "none") : n \in {<<>>, <<"s:w">>}, a \in {-1, 2}, sp \in {"true", "false"}} \cup
   {AddWin(1, 0, <<>>, -1, "none", "not_map")} \cup
-  {Blank @@ [call |-> "align_to", m |-> 1, al |-> a] : a \in -1..3} \cup
+  {Blank @@ [call |-> "align_to", m |-> 1, al |-> a] : a \in IF Rich THEN -1..3 ELSE {2}} \cup
   {Blank @@ [call |-> c, m |-> m] : c \in {"freeze"}, m \in {1, 2}} \cup
   {Blank @@ [call |-> "bridge", m |-> 1]}
+\* domain: a map is used as a window at most once (a TREE of maps, as C03 and C18 say)
+UsedAsWindow(maps, w) == \E m \in 1..Len(maps) : \E it \in maps[m].items : it.kind = "win" /\ it.id = w
+InDomain(maps, c) == c.call = "add_window" /\ c.bad = "none" =>
+                       (~UsedAsWindow(maps, c.w) \/ \E it \in maps[c.m].items : it.kind = "win" /\ it.id = c.w)
 
 \* the outcomes the specification allows for a call
 Accepted(maps, c) ==
@@ -59,6 +69,7 @@ NItems(s) == Cardinality(s.maps[1].items) + Cardinality(s.maps[2].items) + Cardi
 Init == /\ key \in RootAls /\ st = S0(key) /\ lastin = <<>>
         /\ IF Export THEN PrintT(<<"CFG", ToJson([key |-> key, cfg |-> [prelude |-> Prelude(key)], s0 |-> st])>>) ELSE TRUE
 Next == \E c0 \in Calls : \E c \in Outcomes(st.maps, c0) :
+          /\ InDomain(st.maps, c0)
           /\ st' = MmStep(<<>>, st, c)
           /\ lastin' = c
           /\ UNCHANGED key
